@@ -20,6 +20,7 @@ class Exec(Engine):
     def exec_block(self, stmts, fr):
         """-> list of Outcome.  fr.st is the entry state (consumed)."""
         outs = [Outcome("normal", fr.st)]
+        top = getattr(stmts, "_top", False)
         for s in stmts:
             nxt = []
             for o in outs:
@@ -32,9 +33,105 @@ class Exec(Engine):
                     res = self.havoc_stmt(s, fr.sub(st=o.st), str(e))
                 nxt.extend(res)
             outs = nxt
+            if top and fr.contract is not None and fr.contract.cuts:
+                outs = self.maybe_cut(s, outs, fr)
             if len(outs) > self.budget_paths:
                 raise PathBudget(f"more than {self.budget_paths} paths in {fr.fn_key}")
         return outs
+
+    def maybe_cut(self, s, outs, fr):
+        c = fr.contract
+        done = fr.__dict__.setdefault("_cuts_done", set()) if hasattr(fr, "__dict__") else set()
+        keys = []
+        lid = getattr(s, "_loop_id", None)
+        if lid and f"after:{lid}" in c.cuts:
+            keys.append(f"after:{lid}")
+        for nm in sorted(self.assigned_names([s])):
+            k = f"after:assign:{nm}"
+            if k in c.cuts:
+                keys.append(k)
+        keys = [k for k in keys if k not in self._cuts_done]
+        if not keys:
+            return outs
+        key = keys[0]
+        self._cuts_done.add(key)
+        spec = c.cuts[key]
+        clauses = [(cl if not isinstance(cl, str) else (f"c{k}", cl)) for k, cl in enumerate(spec["inv"])]
+        normals = [o for o in outs if o.kind == "normal"]
+        others = [o for o in outs if o.kind != "normal"]
+        if not normals:
+            return outs
+        label = key.split(":")[-1]
+        for o in normals:
+            sf = fr.sub(st=o.st, spec=True)
+            try:
+                for name, f in self.eval_clauses(clauses, sf):
+                    self.emit(sf, f"cut.{label}.{name}", f, kind="cut", line=getattr(s, "lineno", None))
+            except Unsupported as e:
+                o.st.add_taint(f"cut clause not evaluable: {e}")
+                self.emit(sf, f"cut.{label}.unevaluable", z3.BoolVal(False), kind="cut")
+        # one continuation state
+        entry = fr.old if fr.old is not None else normals[0].st
+        base = normals[0].st
+        ns = base.fork()
+        ns.pc = list(entry.pc)
+        ns.trace = [(getattr(s, "lineno", 0), f"cut:{label}")]
+        ns.heap = {}
+        self._hv[0] += 1
+        ns.hver = {k: self._hv[0] for k in set().union(*[set(o.st.hver) | set(o.st.heap) for o in normals])}
+        self.havoc_ghost(ns, "*")
+        if any(o.st.taint for o in normals):
+            ns.taint = sorted({t for o in normals for t in o.st.taint})
+        ns.events = base.events if all(len(o.st.events) == len(base.events) and all(a is b for a, b in zip(o.st.events, base.events)) for o in normals) else []
+        ns.assumed = sorted({a for o in normals for a in o.st.assumed})
+        names = set().union(*[set(o.st.env) for o in normals])
+        env = {}
+        for nm in names:
+            vals = [o.st.env.get(nm) for o in normals]
+            if any(v is None for v in vals):
+                # defined on some paths only: an unconstrained value afterwards (a NameError on use is not modelled)
+                vals = [v for v in vals if v is not None]
+                if any(v.k in ("py", "iter") for v in vals):
+                    continue
+                env[nm] = fresh("V", nm)
+                continue
+            v0 = vals[0]
+            ev0 = entry.env.get(nm)
+            if all(v is v0 for v in vals) and (ev0 is v0):
+                env[nm] = v0   # never reassigned since entry
+                continue
+            if all(v.k == "py" and v.t is v0.t for v in vals) or all(v.k == "none" for v in vals):
+                env[nm] = v0
+                continue
+            kinds = {v.k for v in vals}
+            if kinds <= {"tuple"} and len({len(v.t) for v in vals}) == 1 and len(v0.t) == 0:
+                env[nm] = v0
+                continue
+            if kinds <= {"sdict"} and all(not v.t for v in vals):
+                env[nm] = v0
+                continue
+            if kinds <= {"int"}:
+                env[nm] = fresh("int", nm)
+            elif kinds <= {"bool"}:
+                env[nm] = fresh("bool", nm)
+            elif kinds <= {"real"}:
+                env[nm] = fresh("real", nm)
+            elif kinds <= {"obj"} and len({v.meta.get("cls") for v in vals}) == 1:
+                env[nm] = v0 if all(z3.eq(v.t, v0.t) for v in vals) else fresh("obj:" + v0.meta.get("cls"), nm)
+            elif any(v.k in ("py", "iter") for v in vals):
+                continue
+            else:
+                nv = fresh("V", nm)
+                metas = [v.meta for v in vals if v.k == "V" and v.meta]
+                if metas and len(metas) == len(vals) and all(m == metas[0] for m in metas):
+                    nv.meta = dict(metas[0])
+                env[nm] = nv
+        ns.env = env
+        sf = fr.sub(st=ns, spec=True)
+        for name, f in self.eval_clauses(clauses, sf):
+            ns.assume(f)
+        self.note(f"{fr.fn_key}: cut '{key}' merged {len(normals)} paths")
+        return others + [Outcome("normal", ns)]
 
     def havoc_stmt(self, s, fr, why):
         """Unsupported construct: havoc everything the statement may assign, taint the path."""
@@ -461,10 +558,12 @@ class Exec(Engine):
         return [Outcome("normal", o.st) if o.kind == "brk" else o for o in outs]
 
     def loop_modifies(self, body, fr, spec=None):
-        """What a loop body may modify: (names, heap 'all'|set of (objexpr, attr), ghost bool)."""
+        """What a loop body may modify: (names, heap_all, attribute targets, ghost: set of names or {'*'}).
+        Calls to contracted repository functions contribute their own `modifies`; any other non-pure call is
+        treated as modifying the whole heap and all ghost state."""
         names = self.assigned_names(body)
         heap_all = False
-        ghost = False
+        ghost = set()
         attr_targets = []
         for s in body:
             for n in ast.walk(s):
@@ -479,9 +578,51 @@ class Exec(Engine):
                     if not D.call_is_pure(n, tuple(self.reg.spec)) and not self.is_inert(n):
                         if isinstance(f, ast.Attribute) and f.attr in MUTATORS:
                             continue
+                        clo = None
+                        if isinstance(f, ast.Name):
+                            ev_ = fr.st.env.get(f.id)
+                            if ev_ is not None and ev_.k == "py" and isinstance(ev_.t, FuncRef) and isinstance(ev_.t.node, ast.FunctionDef) \
+                                    and self.reg.get(ev_.t.key) is None and ev_.t.key.startswith(fr.fn_key.split("/")[0] if False else fr.fn_key):
+                                clo = ev_.t.node
+                        if clo is not None:
+                            # a local closure (inlined at the call): what its own body may modify
+                            cn, ch, ca, cg = self.loop_modifies(clo.body, fr, None)
+                            heap_all = heap_all or ch
+                            ghost |= cg
+                            attr_targets.extend(ca)
+                            continue
+                        c = self._callee_contract(f, fr)
+                        if c is not None:
+                            for m in c.modifies:
+                                if m.startswith("ghost:"):
+                                    ghost.add(m[6:])
+                                elif m == "*":
+                                    heap_all = True
+                                    ghost.add("*")
+                                else:
+                                    heap_all = True
+                            continue
+                        if isinstance(f, ast.Name) and f.id in fr.st.env and fr.contract is not None and f.id in fr.contract.fn_params:
+                            ghost.add("calls")
+                            continue
                         heap_all = True
-                        ghost = True
+                        ghost.add("*")
         return names, heap_all, attr_targets, ghost
+
+    def _callee_contract(self, f, fr):
+        try:
+            if isinstance(f, ast.Name):
+                v = self.lookup_name(f.id, fr)
+                if v.k == "py" and isinstance(v.t, FuncRef):
+                    return self.reg.get(v.t.key)
+            if isinstance(f, ast.Attribute) and isinstance(f.value, ast.Name):
+                base = fr.st.env.get(f.value.id)
+                if base is not None and base.k == "obj":
+                    key = self.methods_of.get((base.meta.get("cls"), f.attr))
+                    return self.reg.get(key) if key else None
+        except Unsupported:
+            return None
+        return None
 
     def is_inert(self, call):
         d = dotted(call.func)
@@ -1075,6 +1216,8 @@ class Exec(Engine):
             for m in c.modifies:
                 self.havoc_target(m, cf)
             res = self.fresh_result(c.result, short)
+            for gname, gkind in c.ghost_out.items():
+                st.env[gname] = fresh(gkind, "go_" + gname)
             cf.result = res
             cf.old = old
             self.run_ghost(c.ghost_after.get("call"), cf)
@@ -1180,6 +1323,8 @@ class Exec(Engine):
         D.IMPURE_PROPS.clear()
         D.IMPURE_PROPS.update(self.reg.impure_props)
         body, log = desugar_function(fn, tuple(self.reg.spec))
+        body = _TopList(body)
+        self._cuts_done = set()
         rep.log.extend(log)
         st = State()
         cls = c.cls
@@ -1194,23 +1339,23 @@ class Exec(Engine):
             kind = c.types.get(name)
             if kind is None and i == 0 and cls is not None and name == "self":
                 kind = "obj:" + cls
-            v = named(kind or "V", name)
+            v = named(kind or "V", name + "$")     # '$' keeps program names clear of SMT-LIB reserved words (store, select, ...)
             if kind and kind.startswith("obj:"):
                 st.assume(T.is_VObj(v.t))
                 st.assume(T.tag(v.t) == T.TAG["obj"])
             st.env[name] = v
         if a.vararg is not None:
-            st.env[a.vararg.arg] = SV("V", z3.Const(a.vararg.arg, V), meta={"seq": True})
+            st.env[a.vararg.arg] = SV("V", z3.Const(a.vararg.arg + "$", V), meta={"seq": True})
             st.assume(T.tag(st.env[a.vararg.arg].t) == T.TAG["tuple"])
             st.assume(T.is_VObj(st.env[a.vararg.arg].t))
         if a.kwarg is not None:
-            st.env[a.kwarg.arg] = SV("V", z3.Const(a.kwarg.arg, V), meta={"coll": "map"})
+            st.env[a.kwarg.arg] = SV("V", z3.Const(a.kwarg.arg + "$", V), meta={"coll": "map"})
             st.assume(T.tag(st.env[a.kwarg.arg].t) == T.TAG["dict"])
             st.assume(T.is_VObj(st.env[a.kwarg.arg].t))
         for g, kind in c.ghost.items():
             st.env[g] = named(kind, g) if not kind.startswith("z3:") else self.reg.spec["__mk_" + kind[3:]](g)
         for g, kind in c.free.items():
-            v = named(kind, g)
+            v = named(kind, g + "$")
             if kind.startswith("obj:"):
                 st.assume(T.is_VObj(v.t))
                 st.assume(T.tag(v.t) == T.TAG["obj"])
@@ -1304,6 +1449,10 @@ class Exec(Engine):
         v = old.fork()
         v.pc = cur.pc
         return v
+
+
+class _TopList(list):
+    _top = True
 
 
 def _load(t):
